@@ -13,7 +13,7 @@ Not decided: overlap-freedom, routes avoiding nodes, satisfaction of the returne
 import copy
 from fractions import Fraction
 
-from ..astq import strip, strip_casts, calls, call_args, call_object, writes, written_field, norm, literal_value, src
+from ..astq import strip, strip_casts, calls, call_args, call_object, writes, written_field, norm, literal_value, src, single_assignment_locals
 from ..cfg import CFG
 from ..facts import AnalysisBroken, walk, children
 from ..microai.interp import Interp, Obj, Vec, Box, Oracle, enumerate_paths, AssertFail, Thrown, Unsupported
@@ -426,8 +426,60 @@ def rule_core_alignments(chk, prog):
     (r.bad if bad else r.ok)("Tree::addConstraints (central child)", ft.loc(c), bad or "")
 
 
+def rule_hola_returns(chk, prog):
+    """What doHOLA must still do on its way out, on every path."""
+    r = chk.rule("HOLA-EPILOGUE", "doHOLA dismantles a working copy that SHARES its Node and Edge objects with the caller's graph (peeling severs tree "
+                 "edges from the nodes, chains attach bend nodes): (a) every path from the peeling to a return passes restoreIncidence(G), which "
+                 "makes each node of G know exactly G's edges at it -- `same nodes and edges as before`; (b) in the branch where the whole graph "
+                 "is one tree, whose symmetric layout is the final result, the rank separation handed to Tree::symmetricLayout depends on the "
+                 "nodes' dimensions (not on the ideal edge length alone), so that a node long in the growth direction does not overlap its "
+                 "parent", floor=2)
+    fn = [f for f in prog.fns("dialect::doHOLA") if len(f.params) == 3]
+    if len(fn) != 1:
+        raise AnalysisBroken("doHOLA(Graph &, const HolaOpts &, Logger *) not found")
+    fn = fn[0]
+    g = CFG(fn)
+    peel = [c for c in calls(fn) if c.get("cname") == "dialect::peel"]
+    rest = [c for c in calls(fn) if str(c.get("cname", "")).endswith("restoreIncidence")]
+    r.count()
+    if not peel:
+        raise AnalysisBroken("doHOLA: the call to peel() was not found")
+    w = g.must_follow(peel[0]["id"], [c["id"] for c in rest]) if rest else []
+    (r.ok if w is None else r.bad)("incidence restored on every return", fn.loc(rest[0]) if rest else fn.loc(peel[0]), "" if w is None else
+                                   "after peeling, doHOLA can return without putting the caller's nodes' edge records back in order%s: nodes of the "
+                                   "caller's graph have lost tree edges (degree 0) and a second doHOLA on the graph aborts" % (
+                                       (" (" + g.describe(w) + ")") if w else ""))
+    sl = [c for c in calls(fn) if c.get("cname") == "dialect::Tree::symmetricLayout"]
+    r.count()
+    if not sl:
+        raise AnalysisBroken("doHOLA: the tree-only branch (Tree::symmetricLayout) was not found")
+    sal = single_assignment_locals(fn)
+    decls = {d["did"]: d for d in fn.nodes() if d.get("k") == "VarDecl"}
+    seen, work, dep = set(), [call_args(sl[0])[2]], False
+    while work:
+        e = work.pop()
+        for x in walk(e):
+            if x.get("cname") in ("dialect::Node::getDimensions", "dialect::Node::getBoundingBox", "dialect::Node::getHalfDimensions"):
+                dep = True
+            if x.get("k") == "DeclRefExpr" and x.get("did") in decls and x["did"] not in seen:
+                seen.add(x["did"])
+                d = decls[x["did"]]
+                if d.get("init") is not None:
+                    work.append(d["init"])
+                for lhs, node, op in writes(fn):
+                    l_ = strip(lhs)
+                    if l_ is not None and l_.get("k") == "DeclRefExpr" and l_.get("did") == x["did"] and len(node.get("ch", [])) > 1:
+                        work.append(node["ch"][1])
+    (r.ok if dep else r.bad)("tree-only rank separation", fn.loc(sl[0]), "" if dep else
+                             "the rank separation of the tree-only layout (`%s`) does not depend on any node's dimensions: ranks are spaced by a multiple "
+                             "of the ideal edge length only, and a node that is long in the growth direction overlaps its parent / children" % norm(call_args(sl[0])[2]))
+
+
 def run(chk):
     prog = chk.load()
+    chk.guard(rule_hola_returns, chk, prog)
+    from .c19 import rule_sibling_trees
+    chk.guard(rule_sibling_trees, chk, prog)       # tree nodes on top of each other are node overlaps of the HOLA result too
     chk.guard(rule_padding, chk, prog)
     chk.guard(rule_primitives, chk, prog)
     chk.guard(rule_orthogonal, chk, prog)
@@ -531,7 +583,10 @@ def rule_merge_join(chk, prog):
         T.f["m_graph"] = sub
         G = graph(b, "G")
         added = []
-        tn, te = MapVal({}), MapVal({})
+        # doHOLA hands ONE pair of lookups to the addNetwork calls of all trees and afterwards exempts every edge in it from solidification:
+        # entries that earlier trees put there must survive
+        prev_n, prev_e = node(9001, "earlier tree"), Obj("dialect::Edge", {"_id": 9002})
+        tn, te = MapVal({9001: prev_n}), MapVal({9002: prev_e})
         it = interp()
         it.vhooks["dialect::Graph::getEdgeLookup"] = lambda it_, recv, args: MapVal({})
         it.vhooks["dialect::Graph::addNode"] = lambda it_, recv, args, added=added: added.append(args[0].f["_id"])
@@ -544,6 +599,9 @@ def rule_merge_join(chk, prog):
         want = sorted(set(a) - set(b))
         if sorted(added) != want:
             bad = bad or "tree ids %s, graph ids %s: nodes %s are added to the graph, expected exactly the tree's ids the graph lacks, %s" % (a, b, sorted(added), want)
+        if tn.d.get(9001) is not prev_n or te.d.get(9002) is not prev_e:
+            bad = bad or ("tree ids %s, graph ids %s: the node / edge an earlier tree recorded in the shared treeNodes / treeEdges lookups is gone after "
+                          "addNetwork: only the last tree's edges stay exempt from solidification in doHOLA" % (a, b))
         unrec = sorted(set(added) - set(tn.d))
         if unrec:
             # (the caller puts the recorded nodes -- and only those -- into the tree's cluster)
